@@ -1082,6 +1082,16 @@ func c17Laws(r *Run, c *c17Case, obs []c17StepObs) {
 					!(q.Target != nil && *q.Target == (types.Selector{}))
 			}
 			if o.Kind == "add patch" {
+				// an entry already listed (option-less, same path / text / target): the command must leave the
+				// patches list as it is
+				for _, q := range kPrev.Patches {
+					if same(q) && len(q.Options) == 0 && q.Patch == o.Patch {
+						if a, b := c17FieldJSON(kPrev, c17MustField("Patches")), c17FieldJSON(kNew, c17MustField("Patches")); a != b {
+							viol("add_duplicate_is_noop", "add-patch-duplicates-listed-entry", fmt.Sprintf("step %d %v: %s -> %s", i, o.cli(), a, b))
+						}
+						break
+					}
+				}
 				found := false
 				for _, q := range kNew.Patches {
 					if same(q) && len(q.Options) == 0 {
